@@ -313,6 +313,9 @@ func (ex *Exec) val(f *Frame, st *State, v ssa.Value) Val {
 	}
 	// A value not computed on this path (should not happen): be sound.
 	ex.w.note("read of unset register " + v.Name())
+	if os.Getenv("GOVC_DEBUG") != "" {
+		fmt.Fprintf(os.Stderr, "unset register %s = %s in %s\n", v.Name(), v.String(), f.fn.String())
+	}
 	r := ex.w.freshReg(st, v.Type(), "unset_"+v.Name(), OrigCall)
 	f.regs[v] = r
 	return r
@@ -551,10 +554,19 @@ func (ex *Exec) enterBlock(f *Frame, st *State, b, prev *ssa.BasicBlock) bool {
 		}
 	}
 	if fs.cut[b] {
-		// back edge: invariant preserved
+		// back edge: invariant preserved. The registers are shared between
+		// paths: restore the loop-head values afterwards, sibling paths (the loop
+		// exit) still read them.
+		saved := make([]Val, len(phis))
+		for i, phi := range phis {
+			saved[i] = f.regs[phi]
+		}
 		bindPhis(vals)
 		checkAuto("preserved")
 		checkInv("preserved")
+		for i, phi := range phis {
+			f.regs[phi] = saved[i]
+		}
 		ex.endPath()
 		return false
 	}
@@ -848,9 +860,15 @@ func (ex *Exec) step(f *Frame, st *State, in ssa.Instruction) bool {
 		}
 		f.regs[x] = VFunc{Fn: x.Fn, Bindings: bs}
 	case *ssa.MakeInterface:
+		xv := ex.val(f, st, x.X)
+		if pv, ok := xv.(VPtr); ok && pv.IDU && pv.U != "" {
+			// a pointer taken out of an interface goes back in: same identity
+			f.regs[x] = VIface{U: pv.U, Concrete: x.X.Type(), Val: xv}
+			break
+		}
 		u := w.st.fresh("iface", sortU)
 		st.assume(mkNot(mkEq(u, "nil_iface")))
-		f.regs[x] = VIface{U: u, Concrete: x.X.Type(), Val: ex.val(f, st, x.X)}
+		f.regs[x] = VIface{U: u, Concrete: x.X.Type(), Val: xv}
 	case *ssa.MapUpdate:
 		// maps are abstract
 	case *ssa.Next:
@@ -916,6 +934,20 @@ func (ex *Exec) mapLookup(f *Frame, st *State, x *ssa.Lookup) Val {
 		v = w.freshReg(st, vt, "mapval", OrigMem)
 	}
 	if x.CommaOk {
+		// registries: membership is the constant key set registered in init
+		if ld, ok := x.X.(*ssa.UnOp); ok {
+			if g, ok := ld.X.(*ssa.Global); ok && g.Pkg != nil {
+				if r := ex.prog.CS.Registries[ex.prog.pkgName(g.Pkg.Pkg)+"."+g.Name()]; r != nil {
+					if ki, ok := k.(VInt); ok {
+						var alts []string
+						for _, kk := range r.Keys {
+							alts = append(alts, mkEq(ki.T, bvLitI(kk, ki.W)))
+						}
+						return VTuple{F: []Val{v, VBool{T: mkOr(alts...)}}}
+					}
+				}
+			}
+		}
 		has := w.st.declare("map_has", []string{sortU, sortU}, sortBool)
 		return VTuple{F: []Val{v, VBool{T: app(has, mu, ku)}}}
 	}
@@ -1334,6 +1366,11 @@ func (ex *Exec) typeAssert(f *Frame, st *State, x *ssa.TypeAssert) bool {
 			val = VIface{U: iv.U, Concrete: iv.Concrete, Val: iv.Val}
 		} else {
 			val = w.freshReg(st, x.AssertedType, "ta", OrigCall)
+			if pv, ok := val.(VPtr); ok && iv.U != "" {
+				// the pointer inside the interface: same identity as the interface value
+				pv.U, pv.IDU = iv.U, true
+				val = pv
+			}
 		}
 	}
 	if x.CommaOk {
